@@ -156,6 +156,13 @@ private:
 /** The current version of the MUSCLE serialization protocol that we generate.  Currently there is only a single protocol version, so this here primarily for future use. */
 #define CURRENT_PROTOCOL_VERSION          1347235888 // 'PM00'
 
+#ifndef MUSCLE_MAX_MESSAGE_NESTING_DEPTH
+/** Message::Unflatten() will refuse (with B_BAD_DATA) to parse a flattened Message whose sub-Messages are nested more deeply than this.
+  * Without a limit, a small malformed (or malicious) buffer of deeply nested sub-Messages would overflow the parsing thread's stack.
+  */
+# define MUSCLE_MAX_MESSAGE_NESTING_DEPTH 256
+#endif
+
 /**
  *  The Message class implements a serializable container for named, typed data.
  *
